@@ -1,6 +1,8 @@
 package checks
 
 import (
+	"time"
+
 	"verifharness/internal/kv"
 	"verifharness/internal/rng"
 	"verifharness/internal/sup"
@@ -166,6 +168,7 @@ func init() {
 		Parts: []sup.Part{
 			exhaustivePart("exhaustive-sibling-has-key", c11),
 			randomPart("random", 200, 3000, c11r),
+			{Name: "expiry-in-sibling-collection", Timeout: 120 * time.Second, Count: func(t string) int { return tierN(t, 4, 40) }, Run: siblingExpiryBatch},
 		},
 		Floor: cellsFloor(300),
 	})
